@@ -23,7 +23,7 @@ func RunVegetaGuarded(bin string, ops []string, stall time.Duration) (lines []st
 }
 
 // RunVegetaGuardedEnv: with ignoreSIGINT the vegeta process STARTS with SIGINT ignored, as a background job of
-// a non-interactive shell, a `nohup`/`trap '' INT` wrapper or many supervisors start it (an ignored
+// a non-interactive shell, a `nohup`/`trap ” INT` wrapper or many supervisors start it (an ignored
 // disposition is inherited across exec).
 func RunVegetaGuardedEnv(bin string, ops []string, stall time.Duration, ignoreSIGINT bool) (lines []string, hungAt int, err error) {
 	if len(ops) == 0 {
